@@ -78,7 +78,13 @@ def _sources(tier):
         for g in grids:
             for opt in ({"lock": False}, {"lock": True}, {"fancy": False}, {"getitem": "custom"}, {"inline_array": True}, {"asarray": False}) if tier != "quick" else ({"lock": False}, {"lock": True, "fancy": False}, {"getitem": "custom", "inline_array": True}):
                 out.append({"kind": "rec", "shape": shape, "storage": g, "opts": opt})
-        out.append({"kind": "ndarray", "shape": shape, "storage": None, "opts": {}})
+        # NumPy sources: the eager-copy threshold is an environment answer. 0 keeps
+        # every slice a deferred region; intermediate values make a first slice
+        # deferred and a later, narrower one eager (copy taken from a source
+        # that already carries a region); the default copies at once.
+        nbytes = int(np.prod(shape)) * 8
+        for lim in (0, nbytes // 2, (nbytes * 3) // 4, None):
+            out.append({"kind": "ndarray", "shape": shape, "storage": None, "opts": {} if lim == 0 else {"eager_limit": lim if lim is not None else 64 * 1024 * 1024}})
     return out
 
 
@@ -132,7 +138,7 @@ def run_case(case, out=None):
     try:
         if case["kind"] == "ndarray":
             # force the deferred-region path for small ndarrays too
-            fa._NUMPY_SLICE_PUSHDOWN_NBYTES_LIMIT = 0
+            fa._NUMPY_SLICE_PUSHDOWN_NBYTES_LIMIT = opts.get("eager_limit", 0)
             src = a.copy()
             rec = None
         else:
@@ -216,7 +222,7 @@ def plan(tier, seed):
         "coverage": {
             "exhaustive": True,
             "bounds": {"sources": len(_sources(tier)), "chain_length": 3, "steps_1d": len(STEPS_1D), "steps_2d": len(STEPS_2D)},
-            "rule": "for every source (recording array-like with storage grid none/(3,)/(4,) resp. none/(2,4)/(4,3), lock on/off, fancy on/off, custom getitem, inline_array, asarray=False; and plain ndarrays with the region path forced by setting _NUMPY_SLICE_PUSHDOWN_NBYTES_LIMIT=0) x every requested chunking x every chain of <= 3 steps from {slices of every boundary class, int index, list index, rechunk aligned/misaligned/sub-storage, elemwise, transpose}: result equals NumPy indexing of the source, and every logged read request is within the source's bounds (0 <= start <= stop <= dim, ints in range, no negative wrap) and non-fancy when fancy=False. Non-trivial = a slice or rechunk was absorbed into the read (region set or leaf chunks changed in the optimized tree)",
+            "rule": "for every source (recording array-like with storage grid none/(3,)/(4,) resp. none/(2,4)/(4,3), lock on/off, fancy on/off, custom getitem, inline_array, asarray=False; and plain ndarrays under four values of the eager-copy threshold _NUMPY_SLICE_PUSHDOWN_NBYTES_LIMIT: 0 (always a deferred region), half / three quarters of the array (a first slice deferred, a narrower later one copied eagerly), default) x every requested chunking x every chain of <= 3 steps from {slices of every boundary class, int index, list index, rechunk aligned/misaligned/sub-storage, elemwise, transpose}: result equals NumPy indexing of the source, and every logged read request is within the source's bounds (0 <= start <= stop <= dim, ints in range, no negative wrap) and non-fancy when fancy=False. Non-trivial = a slice or rechunk was absorbed into the read (region set or leaf chunks changed in the optimized tree)",
         },
         "assumptions": ["the recording array-like stands in for zarr/h5py/tiledb stores (not installed)", "requests are checked on the synchronous scheduler"],
     }
